@@ -487,16 +487,20 @@ def _compareDocumentPosition(self, other):
     sparents.reverse()
     oparents.reverse()
 
-    for i, sparent in enumerate(sparents):
-        for j, oparent in enumerate(oparents):
-            if sparent is oparent:
-                s = sparents[i+1]
-                o = oparents[j+1]
-                for item in sparent:
-                   if item is s:
-                       return Node.DOCUMENT_POSITION_FOLLOWING
-                   if item is o:
-                       return Node.DOCUMENT_POSITION_PRECEDING
+    # Walk down from the top to the deepest common ancestor; the children
+    # of that ancestor on the two paths tell which node comes first
+    i = 0
+    while i < len(sparents) and i < len(oparents) and \
+          sparents[i] is oparents[i]:
+        i += 1
+    if i and i < len(sparents) and i < len(oparents):
+        s = sparents[i]
+        o = oparents[i]
+        for item in sparents[i-1]:
+            if item is s:
+                return Node.DOCUMENT_POSITION_FOLLOWING
+            if item is o:
+                return Node.DOCUMENT_POSITION_PRECEDING
 
     return Node.DOCUMENT_POSITION_DISCONNECTED
 
